@@ -53,6 +53,19 @@ func (cr *coreRun) finalChecks() {
 			w.violate("C03", "expired_first", "request %s: first reply is an EXPRIED notice", r)
 		}
 	}
+	for _, tc := range cr.texts {
+		if len(tc.extra) > 0 {
+			w.violate("C03", "text_extra_reply", "text connection %d received %d replies beyond one per command line (first: %s)", tc.id, len(tc.extra), tc.extra[0])
+		}
+		w.probe("text_clients")
+	}
+	for _, r := range cr.h.order {
+		for _, rep := range r.Replies {
+			if rep.Text && rep.TextRaw != "" {
+				w.violate("C03", "text_bad_reply", "request %s on a text connection was answered with %s instead of a lock result", r, rep.TextRaw)
+			}
+		}
+	}
 	for _, rep := range cr.h.stray {
 		if rep.Recycled {
 			w.violate("C03", "reply_from_recycled_command", "client %d received the reply to one of its lock requests under the foreign RequestId %x (result %d): the hold it had just been granted was ended by another client before the SUCCED reply was built, and the reply was built from the already recycled command object", rep.Conn, rep.StrayRid[1:7], rep.Result)
